@@ -120,6 +120,14 @@ PermuteBandsSome ==
               a == FitIndep(s2, PSeq(Grid[m], p), PSeq(K, p), ULo, UHi)
               b == Fit(src, m)
           IN  a.u = b.u /\ a.v = b.v /\ a.big = b.big /\ a.chi = b.chi /\ a.pred20 = PSeq(b.pred20, p)
+\* the extinction pattern only fixes the UNIT of A_V: coefficients twice as large (and a range half as wide) give half the A_V and
+\* the same scale, chi^2 and predictions.  (All A_V ranges of this instance are even.)  The replay uses this with a factor 2^-13:
+\* coefficients that are tiny but unequal -- a far-infrared filter set -- are as good as any others.
+ScaleK ==
+  OK => \A m \in 1..NM :
+          LET a == FitIndep(src, Grid[m], [j \in 1..Len(K) |-> 2 * K[j]], ULo \div 2, UHi \div 2)
+              b == Fit(src, m)
+          IN  a.u = RDiv(b.u, RInt(2)) /\ a.v = b.v /\ a.big = b.big /\ a.chi = b.chi /\ a.pred20 = b.pred20
 ScaleFlux ==
   OK => \A c \in {-8, -2, 2, 8} : \A m \in 1..NM :
           LET s2 == [src EXCEPT !.Y = [j \in Bands(src) |-> src.Y[j] + c]]
